@@ -18,6 +18,7 @@ IS_FILE = z3.Function("is_regular_file", S, B)
 MIME = z3.Function("libmagic_mime_type", S, S)
 TARGET_EXISTS = z3.Function("target_exists_in_node", S, B)
 QUOTE = z3.Function("urllib_quote", S, S)
+LSTAT_SIZE = z3.Function("lstat_size_of_directory_entry", S, I)
 
 T_PACK = [
     "T8 numpy: numpy.void(bs) is a scalar holding exactly the bytes bs; its truth value is False exactly when all bytes are zero; h5py.Empty('b') is the empty value",
@@ -100,6 +101,11 @@ class FPath(PathVal):
     def meth_stat(self, cx):
         st = SObj("StatResult", name="st")
         st.fields["st_size"] = SInt(z3.Length(DISK(self.t)))
+        return st
+
+    def meth_lstat(self, cx):
+        st = SObj("StatResult", name="lst")
+        st.fields["st_size"] = SInt(LSTAT_SIZE(self.t))  # of the directory entry itself: for a symlink the length of the link text
         return st
 
     def meth_is_file(self, cx):
